@@ -347,9 +347,28 @@ func extractOf(tuple ssa.Value, idx int) ssa.Value {
 // lookup's NormalizedURL was compared equal to u. Otherwise a lookup that
 // merely MATCHED a less specific declaration (wildcard) gets the new entry.
 func checkLookupMergeGuard(w *World, r *Report, rule, key string, fn *ssa.Function) {
-	lks := CallsIn(fn, false, "URLTree).Lookup")
+	// merging into a node that Lookup (matching semantics) returned is never safe: on a
+	// wildcard/parametric fallback the result's NormalizedURL is synthesised from the
+	// looked-up URL itself, so comparing it with that URL proves nothing
+	for _, c := range CallsIn(fn, false, "URLTree).Lookup") {
+		lk := c.(*ssa.Call)
+		fromLk := func(v ssa.Value) bool { return Derives(v, func(x ssa.Value) bool { return x == ssa.Value(lk) }) }
+		Instrs(fn, func(in ssa.Instruction) {
+			switch x := in.(type) {
+			case *ssa.MapUpdate:
+				if fromLk(x.Map) {
+					r.Fail(rule, key+"/merge-into-matching-lookup", posOf(x), "a declared pattern is merged into the value that Lookup(%s) returned: Lookup matches, so for `a/*`, `a/x/y`, then `a/x` it returns the wildcard node (NormalizedURL is built from the looked-up URL and equals it), and the new entry lands in - and runs for - the less specific pattern", trunc(Path(lk.Call.Args[1]), 60))
+				}
+			case *ssa.Call:
+				if callee := x.Call.StaticCallee(); callee != nil && callee.Signature.Recv() != nil && len(x.Call.Args) > 0 && x != lk && fromLk(x.Call.Args[0]) && strings.HasSuffix(Path(x.Call.Args[0]), ".Value") {
+					r.Fail(rule, key+"/merge-into-matching-lookup/"+callee.Name(), posOf(x), "%s is applied to the node that Lookup(%s) returned: Lookup matches, so for `a/*`, `a/x/y`, then `a/x` it returns the wildcard node (NormalizedURL is built from the looked-up URL and equals it), and the flow is attached to - and runs for - the less specific pattern", callee.Name(), trunc(Path(lk.Call.Args[1]), 60))
+				}
+			}
+		})
+	}
+	lks := CallsIn(fn, false, "URLTree).LookupDeclaredURL")
 	if len(lks) != 1 {
-		r.Undec(rule, key+"/lookup", fn.Pos(), "expected one tree Lookup, found %d", len(lks))
+		r.Undec(rule, key+"/lookup", fn.Pos(), "expected one exact-pattern lookup (LookupDeclaredURL), found %d", len(lks))
 		return
 	}
 	lk := lks[0].(*ssa.Call)
@@ -358,18 +377,10 @@ func checkLookupMergeGuard(w *World, r *Report, rule, key string, fn *ssa.Functi
 		return Derives(v, func(x ssa.Value) bool { return x == ssa.Value(lk) })
 	}
 	guarded := func(b *ssa.BasicBlock) bool {
-		for _, rel := range Rels(b) {
-			if rel.Op != "==" {
-				continue
-			}
-			l, rr := rel.L, rel.R
-			isNorm := func(v ssa.Value) bool { return strings.HasSuffix(Path(v), ".NormalizedURL") && fromLookup(v) }
-			isU := func(v ssa.Value) bool { return Path(v) == Path(u) }
-			if (isNorm(l) && isU(rr)) || (isNorm(rr) && isU(l)) {
-				return true
-			}
-		}
-		return false
+		return condsHave(expandConds(CondsOf(b)), true, func(v ssa.Value) bool {
+			e, ok := v.(*ssa.Extract)
+			return ok && e.Index == 1 && e.Tuple == ssa.Value(lk)
+		})
 	}
 	n := 0
 	Instrs(fn, func(in ssa.Instruction) {
@@ -377,19 +388,97 @@ func checkLookupMergeGuard(w *World, r *Report, rule, key string, fn *ssa.Functi
 		case *ssa.MapUpdate:
 			if fromLookup(x.Map) {
 				n++
-				r.Check(guarded(x.Block()), rule, key+"/merge-into-looked-up-map", posOf(x), "the map found by Lookup(%s) is extended only when Lookup's NormalizedURL == that URL (relations %s)", trunc(Path(u), 60), trunc(relsString(Rels(x.Block())), 200))
+				r.Check(guarded(x.Block()), rule, key+"/merge-into-looked-up-map", posOf(x), "the map found by LookupDeclaredURL(%s) is extended only on its found edge", trunc(Path(u), 60))
 			}
 		case *ssa.Call:
-			if callee := x.Call.StaticCallee(); callee != nil && callee.Signature.Recv() != nil && len(x.Call.Args) > 0 && fromLookup(x.Call.Args[0]) && x != lk &&
-				strings.HasSuffix(Path(x.Call.Args[0]), ".Value") {
+			if callee := x.Call.StaticCallee(); callee != nil && callee.Signature.Recv() != nil && len(x.Call.Args) > 0 && fromLookup(x.Call.Args[0]) && x != lk && origin(callee).Pkg != nil && strings.HasPrefix(origin(callee).Pkg.Pkg.Path(), "lunar/") {
 				n++
-				r.Check(guarded(x.Block()), rule, key+"/merge-into-looked-up-node/"+callee.Name(), posOf(x), "%s on the node found by Lookup executes only when Lookup's NormalizedURL == the flow's URL", callee.Name())
+				r.Check(guarded(x.Block()), rule, key+"/merge-into-looked-up-node/"+callee.Name(), posOf(x), "%s on the node found by LookupDeclaredURL executes only on its found edge", callee.Name())
 			}
 		}
 	})
 	if n == 0 {
 		r.Undec(rule, key+"/merge-sites", fn.Pos(), "no merge into the looked-up value found")
 	}
+	checkExactLookup(w, r, rule)
+}
+
+// checkExactLookup: LookupDeclaredURL descends by the KIND of each pattern part
+// only (wildcard part -> wildcard child, {param} part -> parametric child,
+// anything else -> constant child of that name), refuses on a missing child or
+// a host/path mismatch, and reports found only for a node that has a value.
+func checkExactLookup(w *World, r *Report, rule string) {
+	f := w.Fn(pkgURLTree, "URLTree.LookupDeclaredURL")
+	if f == nil {
+		r.Undec(rule, "LookupDeclaredURL", token.NoPos, "function not found")
+		return
+	}
+	isWild := func(v ssa.Value) bool {
+		rel, ok := NormCond(Cond{V: v, Pol: true})
+		if !ok || rel.Op != "==" {
+			return false
+		}
+		return (strings.HasSuffix(Path(rel.L), ".Value") && (Path(rel.R) == `"*"` || strings.Contains(Path(rel.R), "wildcard"))) ||
+			(strings.HasSuffix(Path(rel.R), ".Value") && (Path(rel.L) == `"*"` || strings.Contains(Path(rel.L), "wildcard")))
+	}
+	isParam := func(v ssa.Value) bool {
+		e, ok := v.(*ssa.Extract)
+		return ok && e.Index == 1 && isCallTo0(e.Tuple, "urltree.TryExtractPathParameter")
+	}
+	ok := true
+	var why []string
+	seen := map[string]bool{}
+	Instrs(f, func(in ssa.Instruction) {
+		fa, isFA := in.(*ssa.FieldAddr)
+		if !isFA {
+			return
+		}
+		if _, sn := namedOf(fa.X.Type()); sn != "Node" {
+			return
+		}
+		cs := expandConds(CondsOf(fa.Block()))
+		switch fld := fieldName(fa.X.Type(), fa.Field); fld {
+		case "WildcardChild":
+			seen[fld] = true
+			if !condsHave(cs, true, isWild) {
+				ok = false
+				why = append(why, "WildcardChild followed for a part that is not the wildcard")
+			}
+		case "ParametricChild":
+			seen[fld] = true
+			if !condsHave(cs, true, isParam) || !condsHave(cs, false, isWild) {
+				ok = false
+				why = append(why, "ParametricChild followed for a part that is not a {param}")
+			}
+		case "ConstantChildren":
+			seen[fld] = true
+			if !condsHave(cs, false, isParam) || !condsHave(cs, false, isWild) {
+				ok = false
+				why = append(why, "ConstantChildren consulted for a wildcard or {param} part")
+			}
+		}
+	})
+	for _, k := range []string{"WildcardChild", "ParametricChild", "ConstantChildren"} {
+		if !seen[k] {
+			ok = false
+			why = append(why, k+" never followed")
+		}
+	}
+	for _, alt := range ReturnAlts(f, 1) {
+		b, isC := constBool(alt.Val)
+		if !isC {
+			ok = false
+			continue
+		}
+		if b {
+			hv := condsHave(expandConds(alt.Conds), true, func(v ssa.Value) bool { return isCallTo0(v, "Node).hasValue") })
+			if !hv {
+				ok = false
+				why = append(why, "found reported for a node without a value")
+			}
+		}
+	}
+	r.Check(ok, rule, "LookupDeclaredURL/descends-by-part-kind-only", f.Pos(), "the exact-pattern lookup follows wildcard/parametric/constant children only for parts of the same kind and reports found only for a node with a value %v", why)
 }
 
 // checkDescentLabelGuard: every edge on which the trie cursor descends into a
